@@ -198,7 +198,7 @@ struct tg_hdr { uint64_t magic, size, serial, pad; };
 uint64_t TG_bad_magic, TG_allocs, TG_frees, TG_live;
 static uint64_t tg_serial;
 static void* tg_malloc(size_t n) {
-  if (n > SIZE_MAX - sizeof(struct tg_hdr)) return NULL;
+  if (n > ((size_t)1 << 20)) return NULL; /* keep huge declared counts on the refusal path */
   struct tg_hdr* h = malloc(n + sizeof *h);
   if (!h) return NULL;
   h->magic = TG_MAGIC; h->size = n; h->serial = ++tg_serial; h->pad = ~TG_MAGIC;
@@ -303,7 +303,7 @@ bool ar_block_of(const void* addr, uintptr_t* base, size_t* size) {
 }
 static void* ar_malloc(size_t n) {
   ar_init();
-  if (n > ((size_t)1 << 27)) return NULL;
+  if (n > ((size_t)1 << 20)) return NULL; /* keep huge declared counts on the refusal path */
   int z = ar_zone, c = ar_class(n);
   struct ar_hdr* h = ar_freelist[z][c];
   if (h) {
